@@ -20,7 +20,7 @@ RULE = ("cases = groups of independent ops, each op one complete connection: `re
         "valid requests (no body, Content-Length, chunked, keep-alive pairs, HTTP/1.0, OPTIONS first) cut at EVERY byte "
         "position through srv/req/tcp for the dispatch clause; every percent escape %00-%ff in both letter cases; query strings with "
         "escaped & = + inside keys and values; Content-Length that is not a length / together with chunked, each followed by a "
-        "pipelined request; folded header lines, Content-Length with leading zeros, Transfer-Encoding spellings; `rng` = GET of a fixture file (36, 4, 0 bytes) with a generated Range value (number pairs around the size, 2^31, 2^32+5, 2^63, 18/19/20 digits, signs, blanks, one/three/four parts, suffix forms, other units, commas, NUL, random bytes without CR/LF); `upg` = a request head with Upgrade: websocket (or near misses, cut or mutated heads, a Content-Length body) and 0-200 first-frame bytes in ONE segment to an HttpServer with a linked WebSocketServer; `fmap` = GET of every short token path on the file-server fixture (status and length); non-trivial = distinct case with a non-empty stream")
+        "pipelined request; folded header lines, Content-Length with leading zeros, Transfer-Encoding spellings; `rng` = GET of a fixture file (36, 4, 0 bytes) with a generated Range value (number pairs around the size, 2^31, 2^32+5, 2^63, 18/19/20 digits, signs, blanks, one/three/four parts, suffix forms, other units, commas, NUL, random bytes without CR/LF); `upg` = a request head with Upgrade: websocket (or near misses, cut or mutated heads, a Content-Length body) and 0-200 first-frame bytes in ONE segment to an HttpServer with a linked WebSocketServer; `upgf` = the same in two segments (cut anywhere, second segment 15 ms later); `fmap` = GET of every short token path on the file-server fixture (status and length); non-trivial = distinct case with a non-empty stream")
 
 TRUSTED = ["tools/props/c09.py _frame(): lenient RFC 7230 framing parser used by the dispatch clause (no opinion where framing is a matter of interpretation: NUL in the head, folded or duplicate Content-Length/Transfer-Encoding, non-decimal lengths, chunk extensions/trailers)",
            "harness/c09.cpp watchdog (12 s kill) and SLOW flag (>5 s wall or >1.5 s CPU per connection) for the 'terminates promptly' clause",
@@ -71,17 +71,19 @@ LEVEL_TEXT = ("Proved in Lean 4 about the model that the driver runs, for ALL by
               "Range value (any bytes) and file size n the parser of HttpServer::serve ends, reads parts[0]/parts[1] of the split only where they exist "
               "(checked array access partAt?), and answers whole file, unsatisfiable, or begin <= end < n - through the same rangeOf as C10's model; tied by "
               "the op `rng` (status, Content-Range, Content-Length, body length of the real answer on files of 36, 4 and 0 bytes). UPGRADE: "
-              "(upgrade_handoff_exact, upgrade_handoff_consumes_prefix) a well-formed request with Upgrade: websocket followed by ANY bytes (the first frame, whole, "
+              "(upgrade_handoff_exact, upgrade_handoff_any_fragmentation, upgrade_handoff_consumes_prefix) a well-formed request with Upgrade: websocket followed by ANY bytes (the first frame, whole, "
               "in part, or none) is handed to the WebSocket server with exactly those bytes unread - the HTTP reader consumed the request and nothing of the frame; "
               "tied by the op `upg` (head + frame bytes written in one segment, a WebSocketServer subclass linked to the HttpServer reads what is left on the "
-              "descriptor at the hand-off). ONE DECODING: (path_decoded_once, decode_inverts_one_escape) a path text sent with its `%` escaped as `%25` arrives as "
+              "descriptor at the hand-off; `upgf`: the same stream delivered in two segments cut inside the head or the frame, the second arriving while the server "
+              "reads - the answer must not depend on the cut; in the model a fragmentation is a list of segments whose concatenation the blocking reads see). ONE DECODING: (path_decoded_once, decode_inverts_one_escape) a path text sent with its `%` escaped as `%25` arrives as "
               "that text (`%252e%252e` is `%2e%2e`, never `..`), for every path; tied by tg/req/dec as before.")
 
 LEVEL_NOTE = ("Trusted: Lean kernel, harness + watchdog, the python framing parser, libc/OS as listed in assumptions. The query theorems "
               "import C15's model/proofs (AslModel.Codec incl. the regenerated Gen/TablesGen, AslProofs.Query*). The Upgrade: websocket hand-off "
               "(HttpServer.cpp ~60-65) is modelled up to the call of WebSocketServer::process (upgradeHandOff: which headers and which unread bytes it receives; "
-              "what process does with them is C11's); the request head arriving in several TCP segments is runtime behaviour of waitInput/select and not in the model "
-              "(all bytes have arrived, EOF after them) - the frame part may be any prefix of a frame, including nothing. Not modelled and not exercised: "
+              "what process does with them is C11's); segment boundaries are not in the model's socket (it holds the concatenation; upgrade_handoff_any_fragmentation says just that and rests on the "
+              "assumption that blocking reads of a stream socket deliver the concatenation; `upgf` exercises two-segment deliveries 15 ms apart on the real server); "
+              "a segment later than the 5 s waitData/waitInput limits is runtime behaviour outside the model. Not modelled and not exercised: "
               "CORS headers, socket timeouts/select and partial arrival (EOF only). Transfer-Encoding is chunked when its last "
               "coding is `chunked`, ASCII case-insensitively (fix 7dcf721; String::toLowerCase is UTF-8 aware, the model ASCII: values "
               "with bytes >= 0x80 are not generated); a request with a Transfer-Encoding whose last coding is not chunked (gzip, `chunked, gzip`, xchunked, empty) is "
@@ -748,6 +750,13 @@ def gen(rng, tier):
         n = rng.choice([0, 1, 2, 6, 7, 11, 40, 200])
         frame = (bytes([0x81, 0x80 | min(n, 125)]) + bytes(rng.randrange(256) for _ in range(4 + min(n, 125))))[:max(n, 0) + 6] if n and rng.random() < 0.6 \
             else bytes(rng.randrange(256) for _ in range(n))
+        if i % 4 == 3:
+            # the same stream in two segments, the cut anywhere (mostly inside the head, sometimes inside the frame)
+            tot = len(head) + len(frame)
+            k = rng.randrange(0, len(head) + 1) if rng.random() < 0.7 else rng.randrange(0, tot + 1)
+            c.append("upgf %s %s %d" % (hexs(head), hexs(frame), k))
+            st["upgf"] = st.get("upgf", 0) + 1
+            continue
         c.append("upg %s %s" % (hexs(head), hexs(frame)))
         st["upg"] += 1
         if len(c) == 50:
